@@ -617,23 +617,27 @@ class Renderer:
                 body.append("            self.ser2 <<= TYPE(x2).bits()")
             body.append("")
 
-        # run-time construction in every form
+        # run-time construction in every form (CBX: the same without the Null / Full constructions, used when the
+        # compiler rejects those for some field type)
         if root_is_record and with_forms:
-            body.append("class CB(cohdl.Entity):")
-            body.append(f"    inp = Port.input(BitVector[{w}])")
-            for j in fidx:
-                body.append(f"    cb{j} = Port.output(BitVector[{w}])")
-            body.append(f"    cbnull = Port.output(BitVector[{w}])")
-            body.append(f"    cbfull = Port.output(BitVector[{w}])")
-            body.append("")
-            body.append("    def architecture(self):")
-            body.append("        @std.concurrent")
-            body.append("        def logic():")
-            for j in fidx:
-                body.append(f"            self.cb{j} <<= std.to_bits({self.cb_expr(T, j)})")
-            body.append("            self.cbnull <<= std.to_bits(TYPE(Null))")
-            body.append("            self.cbfull <<= std.to_bits(TYPE(Full))")
-            body.append("")
+            for cname, with_nf in (("CB", True), ("CBX", False)):
+                body.append(f"class {cname}(cohdl.Entity):")
+                body.append(f"    inp = Port.input(BitVector[{w}])")
+                for j in fidx:
+                    body.append(f"    cb{j} = Port.output(BitVector[{w}])")
+                if with_nf:
+                    body.append(f"    cbnull = Port.output(BitVector[{w}])")
+                    body.append(f"    cbfull = Port.output(BitVector[{w}])")
+                body.append("")
+                body.append("    def architecture(self):")
+                body.append("        @std.concurrent")
+                body.append("        def logic():")
+                for j in fidx:
+                    body.append(f"            self.cb{j} <<= std.to_bits({self.cb_expr(T, j)})")
+                if with_nf:
+                    body.append("            self.cbnull <<= std.to_bits(TYPE(Null))")
+                    body.append("            self.cbfull <<= std.to_bits(TYPE(Full))")
+                body.append("")
 
         # constants inside a synthesisable context
         if ct_patterns:
